@@ -493,6 +493,14 @@ class LogVal(object):
     def __rsub__(self, o):
         return LogVal(LogVal.lift(o).lin / self.lin)
 
+    def __mul__(self, k):
+        # k * log(x) = log(x**k) for a concrete non-negative integer multiplicity
+        if isinstance(k, bool) or not isinstance(k, int) or k < 0:
+            raise Unsupported("log value times %r" % (k,))
+        return LogVal(self.lin ** k)
+
+    __rmul__ = __mul__
+
     def _cmp(self, op, o):
         if isinstance(o, LogVal):
             return getattr(self.lin, _OPS[op])(o.lin)
